@@ -29,13 +29,15 @@ u64 H[5];
 #define HV(t) vp_nd_range(0, (1u << HBITS) - 1)
 #endif
 u32 elems[5]; int ncreated, created_by[5]; u8* elem_of[5];
-u8* res[5];
+u8* res[5]; int relooked[5];
 /* array storage handed out by create_array: plain u64 arrays (header = 2 words, slot = 2 words), one root object each, so that cbmc
    turns the real code's u64 accesses at data-dependent slot indices into array indexing instead of byte extraction */
 #define AWORDS (2 + 2 * (1 << MAXLG))
 u64 pool0[AWORDS], pool1[AWORDS], pool2[AWORDS], pool3[AWORDS];
 #define POOL(i) ((i) == 0 ? (u8*)pool0 : (i) == 1 ? (u8*)pool1 : (i) == 2 ? (u8*)pool2 : (u8*)pool3)
 int npool, pool_state[4]; u64 pool_bytes[4];
+u8* root_at_alloc[4];            /* ghost: my_root when create_array handed the array out */
+int inchain[4], isroot[4];        /* filled by final_table_check */
 /* atomic<array*> is accessed as i64 by clang: pointer<->integer casts go through these identity hooks (unit key ptrhooks) so that
    cbmc sees the finite candidate set = the arrays create_array handed out */
 u64 vp_p2i(u8* p) { return (u64)p; }
@@ -70,7 +72,7 @@ u8* vp_create_local(void) {
 u8* vp_create_array(u64 bytes) {
   VP_ASSERT(bytes >= 16 + 4 * 16 && bytes <= 8 * AWORDS, "array size outside the modelled range (4..1<<MAXLG slots)");
   VP_ASSERT(npool < NPOOL, "more arrays allocated than one per inserting thread");
-  pool_state[npool] = 1; pool_bytes[npool] = bytes;
+  pool_state[npool] = 1; pool_bytes[npool] = bytes; root_at_alloc[npool] = vp_ets_root(&E);
   npool++; return POOL(npool - 1);
 }
 void vp_free_array(u8* p, u64 bytes) {
@@ -90,6 +92,7 @@ void vp_local_result(u32 id, u8* p, u32 exists) {
     VP_ASSERT(exists, "later access of a thread did not find its element");
     VP_ASSERT(p == res[id], "element address of a thread changed (or another thread's element returned)");
     VP_ASSERT(created_by[id] == 1, "later access created a second element for the same thread");
+    relooked[id] = 1;
   }
 }
 #define PW(i) ((i) == 0 ? pool0 : (i) == 1 ? pool1 : (i) == 2 ? pool2 : pool3)
@@ -100,7 +103,7 @@ static void final_table_check(void) {
   VP_ASSERT(vp_ets_count(&E) == NID, "my_count differs from the number of thread ids");
   u8* r = vp_ets_root(&E);
   VP_ASSERT(r != 0, "no root array");
-  int inchain[4] = {0, 0, 0, 0}, isroot[4] = {0, 0, 0, 0}, total[5] = {0, 0, 0, 0, 0};
+  int total[5] = {0, 0, 0, 0, 0};
   u64 prev_lg = 64;
   for (int d = 0; d < NPOOL; d++) {
     if (!r) break;
@@ -201,6 +204,24 @@ int main(void) {
   __CPROVER_assume(!unfinished);
 #ifndef NOFINAL
   final_table_check();
+#endif
+#ifdef RELOOK
+  /* after quiescence every id looks itself up again (real table_lookup, model thread `p` run alone, RELOOK forced slices each):
+     must find its own element (exists == true): an id whose slot is not reachable by probing from my_root would get a second one */
+  for (int t = 0; t < NID; t++) {
+    THR(p_start)(&E, t); THR(p_fin) = 0; vp_cur = t; relooked[t] = 0;
+    for (int k = 0; k < RELOOK; k++) { VP_RUNMAX(THR(p)) }
+    __CPROVER_assume(THR(p_fin));
+    VP_ASSERT(relooked[t], "second lookup did not report");
+  }
+#endif
+#ifdef COVER_RETRY
+  /* witness: some array that is in the final chain was handed out while my_root had another value than the array's final `next`:
+     its owner's CAS on my_root failed (root changed under it), the published array was smaller than the wanted one (otherwise the
+     owner frees its array), it looped with r = new_r, the retried CAS succeeded, and the owner completed its insert (all finished) */
+  { int hit = 0;
+    for (int i = 0; i < NPOOL; i++) if (inchain[i] && PW(i)[0] != 0 && PW(i)[0] != (u64)root_at_alloc[i]) hit = 1;
+    __CPROVER_assume(hit); }
 #endif
   VP_REACHED();
   return 0;
